@@ -347,15 +347,31 @@ pub fn chunked(a: &[String]) -> Value {
         "flip-signature-low-bit" => { let start = offsets[0] + format!("{:x}", chunks[0].len()).len() + 17; body[start] ^= 1; }
         _ => {}
     }
+    // frame-after-meta: intact upload, the transport's first piece ends EXACTLY after the first chunk's meta line;
+    // resized-final-chunk: the final chunk `0;chunk-signature=S` is rewritten to `5;chunk-signature=S`, and five bytes `EVIL!` follow
+    // in the next piece (S is the signature of an EMPTY chunk: it must not verify five bytes of data)
+    let mut cut: Option<usize> = None;
+    if variant == "frame-after-meta" { cut = Some(offsets[0] + format!("{:x}", chunks[0].len()).len() + 17 + 64 + 2); }
+    if variant == "resized-final-chunk" {
+        let lo = *offsets.last().unwrap();
+        body[lo] = b'5';
+        let meta_end = lo + 1 + 17 + 64 + 2;
+        body.truncate(meta_end);
+        body.extend_from_slice(b"EVIL!\r\n");
+        cut = Some(meta_end);
+    }
     let auth = format!("AWS4-HMAC-SHA256 Credential={AK}/{scope}, SignedHeaders=content-encoding;content-length;host;x-amz-content-sha256;x-amz-date;x-amz-decoded-content-length, Signature={seed}");
-    let (st, calls, rbody) = send_body("PUT", "/bkt/key", "", vec![("host".into(), host.into()), ("content-encoding".into(), "aws-chunked".into()),
+    let hdrs = vec![("host".into(), host.into()), ("content-encoding".into(), "aws-chunked".into()),
         ("content-length".into(), enc_len.to_string()), ("x-amz-content-sha256".into(), ph.into()), ("x-amz-date".into(), stamp), ("x-amz-decoded-content-length".into(), n.to_string()),
-        ("authorization".into(), auth)], body);
+        ("authorization".into(), auth)];
+    let (st, calls, rbody) = if cut.is_some() { send_body_pieces("PUT", "/bkt/key", "", hdrs, body, 7, cut) } else { send_body("PUT", "/bkt/key", "", hdrs, body) };
     let body_line = calls.iter().find(|c| c.starts_with("put_object.body")).cloned().unwrap_or_default();
     let clean_full = body_line.contains(&format!("bytes={n} ")) && body_line.contains("end=clean");
-    let ok = if variant == "complete" { clean_full } else { !body_line.contains("end=clean") || calls.is_empty() };
+    let ok = if variant == "complete" || variant == "frame-after-meta" { clean_full }
+             else if variant == "resized-final-chunk" { (!body_line.contains("end=clean") || calls.is_empty()) && (body_line.is_empty() || body_line.contains(&format!("bytes={n} "))) }
+             else { !body_line.contains("end=clean") || calls.is_empty() };
     json!({"violates": !ok, "input": {"payload_bytes": n, "chunk_size": cs, "variant": variant},
-           "expected": if variant == "complete" { "the backend reads all payload bytes and the body ends cleanly".to_owned() } else { "the body must NOT end successfully (error before or instead of a clean end)".to_owned() },
+           "expected": if variant == "complete" || variant == "frame-after-meta" { "the backend reads all payload bytes and the body ends cleanly".to_owned() } else if variant == "resized-final-chunk" { "the body ends with an error and no byte beyond the verified payload is delivered".to_owned() } else { "the body must NOT end successfully (error before or instead of a clean end)".to_owned() },
            "observed": {"status": st, "backend": calls, "response": rbody.chars().take(160).collect::<String>()}, "replay_args": ["chunked", a[0], a[1], a[2]]})
 }
 
@@ -464,16 +480,17 @@ pub fn v2_presigned(a: &[String]) -> Value {
     use sha1::Sha1;
     let path = a[0].clone();
     let wire_path = uri_encode(&path, false);
-    let expires = (time::OffsetDateTime::now_utc().unix_timestamp() + 600).to_string();
+    // optional second argument: the Expires value (epoch seconds); default now + 600 s
+    let expires = a.get(1).cloned().unwrap_or_else(|| (time::OffsetDateTime::now_utc().unix_timestamp() + 600).to_string());
     let sts = format!("GET\n\n\n{expires}\n{wire_path}");
     let mut m = <Hmac<Sha1> as KeyInit>::new_from_slice(SK.as_bytes()).unwrap();
     m.update(sts.as_bytes());
     let sig = base64_simd::STANDARD.encode_to_string(m.finalize().into_bytes());
-    let q = vec![("AWSAccessKeyId".to_owned(), AK.to_owned()), ("Expires".to_owned(), expires), ("Signature".to_owned(), sig)];
+    let q = vec![("AWSAccessKeyId".to_owned(), AK.to_owned()), ("Expires".to_owned(), expires.clone()), ("Signature".to_owned(), sig)];
     let (st, calls, body) = send("GET", &path, &wire_query(&q), vec![("host".into(), "localhost".into())]);
     let ok = calls.len() == 1;
-    json!({"violates": !ok, "input": {"path": path, "path_as_sent": wire_path, "string_to_sign": sts}, "expected": "authenticated (one backend invocation)",
-           "observed": {"status": st, "backend_calls": calls, "body": body.chars().take(200).collect::<String>()}, "replay_args": ["sigv2-presigned", a[0]]})
+    json!({"violates": !ok, "input": {"path": path, "path_as_sent": wire_path, "expires": expires, "string_to_sign": sts}, "expected": "authenticated (one backend invocation)",
+           "observed": {"status": st, "backend_calls": calls, "body": body.chars().take(200).collect::<String>()}, "replay_args": if a.len() > 1 { vec!["sigv2-presigned".to_owned(), a[0].clone(), a[1].clone()] } else { vec!["sigv2-presigned".to_owned(), a[0].clone()] }})
 }
 
 /// sigv4-multi-header: (a) a SigV4 header-auth GET whose signed header `x-amz-meta-t` is sent twice and signed per the specification
@@ -646,4 +663,53 @@ pub fn scope_tamper() -> Value {
     }
     json!({"violates": first_bad.is_some(), "input": {"request": "GET /bkt/key, SigV4 header auth, signed for <today>/us-east-1/s3/aws4_request", "first_failing_case": first_bad},
            "expected": "accepted only with the scope it was signed for", "observed": all, "replay_args": ["sigv4-scope"]})
+}
+
+/// sigv4-h2: SigV4 requests over HTTP/2 — no Host header, the authority (with an explicit port) only in the request target. A
+/// client signs `host:localhost:8014`; (a) header auth and (b) presigned URL signed that way must be accepted, and (c), (d) the same
+/// signed for `host:localhost` (no port) must be refused
+pub fn h2_host() -> Value {
+    let (date, stamp) = now_stamp(0);
+    let scope = format!("{date}/us-east-1/s3/aws4_request");
+    let send_h2 = |path_q: &str, headers: Vec<(String, String)>| -> (u16, Vec<String>) {
+        let rec = crate::service::Recorder::default();
+        let log = rec.log.clone();
+        let mut b = s3s::service::S3ServiceBuilder::new(rec);
+        b.set_auth(s3s::auth::SimpleAuth::from_single(AK, SK));
+        let svc = b.build();
+        let mut rb = http::Request::builder().method("GET").version(http::Version::HTTP_2).uri(format!("http://localhost:8014{path_q}"));
+        for (n, v) in &headers { rb = rb.header(n.as_str(), v.as_str()); }
+        let req = rb.body(s3s::Body::empty()).unwrap();
+        let rt = tokio::runtime::Builder::new_current_thread().enable_all().build().unwrap();
+        let st = rt.block_on(async { svc.call(req).await.map(|r| r.status().as_u16()).unwrap_or(0) });
+        let calls = log.lock().unwrap().clone();
+        (st, calls)
+    };
+    let mut all = Vec::new(); let mut first_bad: Option<String> = None;
+    for (host_signed, want) in [("localhost:8014", true), ("localhost", false)] {
+        // header auth
+        let payload = "UNSIGNED-PAYLOAD";
+        let canonical = format!("GET\n/bkt/key\n\nhost:{host_signed}\nx-amz-content-sha256:{payload}\nx-amz-date:{stamp}\n\nhost;x-amz-content-sha256;x-amz-date\n{payload}");
+        let sts = format!("AWS4-HMAC-SHA256\n{stamp}\n{scope}\n{}", sha256_hex(canonical.as_bytes()));
+        let sig = hex(&hmac(&signing_key(&date, "us-east-1", "s3"), sts.as_bytes()));
+        let auth = format!("AWS4-HMAC-SHA256 Credential={AK}/{scope}, SignedHeaders=host;x-amz-content-sha256;x-amz-date, Signature={sig}");
+        let (st, calls) = send_h2("/bkt/key", vec![("x-amz-content-sha256".into(), payload.into()), ("x-amz-date".into(), stamp.clone()), ("authorization".into(), auth)]);
+        let ok = (calls.len() == 1) == want;
+        let name = format!("header auth signed for host:{host_signed}");
+        all.push(json!({"case": name, "status": st, "backend_calls": calls, "ok": ok}));
+        if !ok && first_bad.is_none() { first_bad = Some(name); }
+        // presigned URL
+        let mut q: Vec<(String, String)> = vec![("X-Amz-Algorithm".into(), "AWS4-HMAC-SHA256".into()), ("X-Amz-Credential".into(), format!("{AK}/{scope}")),
+            ("X-Amz-Date".into(), stamp.clone()), ("X-Amz-Expires".into(), "600".into()), ("X-Amz-SignedHeaders".into(), "host".into())];
+        let canonical = format!("GET\n/bkt/key\n{}\nhost:{host_signed}\n\nhost\nUNSIGNED-PAYLOAD", canonical_query(&q));
+        let sts = format!("AWS4-HMAC-SHA256\n{stamp}\n{scope}\n{}", sha256_hex(canonical.as_bytes()));
+        q.push(("X-Amz-Signature".into(), hex(&hmac(&signing_key(&date, "us-east-1", "s3"), sts.as_bytes()))));
+        let (st, calls) = send_h2(&format!("/bkt/key?{}", wire_query(&q)), vec![]);
+        let ok = (calls.len() == 1) == want;
+        let name = format!("presigned URL signed for host:{host_signed}");
+        all.push(json!({"case": name, "status": st, "backend_calls": calls, "ok": ok}));
+        if !ok && first_bad.is_none() { first_bad = Some(name); }
+    }
+    json!({"violates": first_bad.is_some(), "input": {"request": "GET http://localhost:8014/bkt/key over HTTP/2, no Host header", "first_failing_case": first_bad},
+           "expected": "accepted when signed for host:localhost:8014, refused when signed for host:localhost", "observed": all, "replay_args": ["sigv4-h2"]})
 }
